@@ -53,7 +53,15 @@ let case_chan k line lines =
   let servers0 = geti "servers" 1 and tries = geti "tries" 3 and maxt = geti "maxtimeout" 0 in
   let idseq = geti "idseq" (-1) in
   let flags = match field "flags" cfgw with Some f -> split_on ',' f | None -> [] in
-  if idseq < 0 || maxt <= 0 || maxt > 250 then "trivial-unsupported-config" else begin
+  (* two modes.  exact: maxtimeout <= 250 <= timeout, every wait is exactly maxtimeout ms.
+     extreme: no maxtimeout (or a huge one): the waits are the saturating doubling (jittered),
+     only their lower bound - the base timeout - is known; such histories never advance the
+     clock as far as that, so nothing may time out, and a history that does gets no verdict *)
+  let timeout_cfg = geti "timeout" 2000 in
+  let extreme = maxt <= 0 || maxt > 250 in
+  let base_lb = if not extreme then maxt else min (max timeout_cfg 250) (if maxt > 0 then maxt else 5000) in
+  let unjudged = ref false in
+  if idseq < 0 then "trivial-unsupported-config" else begin
     let s_now = ref servers0 in
     let smax = ref servers0 in
     (* pre-scan for the largest server count *)
@@ -94,7 +102,7 @@ let case_chan k line lines =
             else if Z.eqb (zi qu.nbad) cOOKIE_RESEND_MAX && not tcp then fail k "badcookie-no-tcp-fallback" "query t%d: re-send number %d after BADCOOKIE still over UDP" qu.token qu.nbad
           end;
           qu.obs <- r; qu.trace <- EvOut (OTx (tcp, opt)) :: qu.trace; qu.sock <- s;
-          qu.deadline <- !now + maxt * 1000
+          qu.deadline <- !now + base_lb * 1000
         | ObsCb st :: r when (match o with ODone _ -> true | _ -> false) ->
           qu.obs <- r; qu.trace <- EvOut (ODone (zi st)) :: qu.trace
         | _ -> qu.bad <- true (* the implementation did not show what the model predicts *)) outs;
@@ -166,8 +174,10 @@ let case_chan k line lines =
          for a reason the log shows - a message for it arrived on its connection, the socket layer
          reported an error on its connection (failed read, message that does not parse) - never
          because some OTHER query timed out *)
-      let snapshot = List.map (fun qu -> (qu, in_flight qu, qu.sock, qu.deadline, qu.obs <> [])) (Hashtbl.fold (fun _ qu acc -> qu :: acc) queries []) in
-      let excused_q = Hashtbl.create 8 and excused_s = Hashtbl.create 4 in
+      let snapshot = List.map (fun qu -> (qu, in_flight qu, qu.sock, qu.deadline, List.length qu.obs)) (Hashtbl.fold (fun _ qu acc -> qu :: acc) queries []) in
+      let excused_q : (int, int) Hashtbl.t = Hashtbl.create 8 in
+      let excuse qu = Hashtbl.replace excused_q qu.token (1 + (match Hashtbl.find_opt excused_q qu.token with Some n -> n | None -> 0)) in
+      if extreme && List.exists (fun (qu, fl, _, dl, _) -> ignore qu; fl && dl <= !now) snapshot then unjudged := true;
       let hw = words head in
       let rl = match List.find_opt (starts_with "r=") hw with Some r -> List.map sock_of (list_of_brackets (String.sub r 2 (String.length r - 2))) | None -> [] in
       (* read phase, socket by socket *)
@@ -190,7 +200,7 @@ let case_chan k line lines =
             | (id, Some kind, cform) :: rest ->
               (match Hashtbl.find_opt by_qid id with
                | Some qu ->
-                 if qu.sock = s then Hashtbl.replace excused_q qu.token ();
+                 if qu.sock = s then excuse qu;
                  let same = in_flight qu && qu.sock = s in
                  if alive qu && not same then Hashtbl.replace feats "stale" ();
                  (* ares_cookie_validate, for a reply that reached it (outstanding on this connection).
@@ -218,21 +228,19 @@ let case_chan k line lines =
               (* process_answer fails: the connection is closed, every query still outstanding on it
                  is re-queued; the messages behind it are lost *)
               stopped := true;
-              Hashtbl.replace excused_s s ();
               Hashtbl.replace feats "malformed" ();
               if rest <> [] then Hashtbl.replace feats "malformed-not-last" ();
               if !touched <> [] then Hashtbl.replace feats "malformed-after-requeue" ();
-              List.iter (fun qu -> if in_flight qu && qu.sock = s then feed qu (IConnClosed (zi !s_now, aRES_EBADRESP))) (queries_in_order ()) in
+              List.iter (fun qu -> if in_flight qu && qu.sock = s then (excuse qu; feed qu (IConnClosed (zi !s_now, aRES_EBADRESP)))) (queries_in_order ()) in
           if List.length consumed > 1 then Hashtbl.replace feats "batch" ();
           walk_msgs consumed;
           (* the read itself failed: what was read before the failure has been processed above,
              now the connection is closed and every query still outstanding on it is re-queued *)
           if err then begin
-            Hashtbl.replace excused_s s ();
             Hashtbl.replace feats "readerr" ();
             if consumed <> [] then Hashtbl.replace feats "readerr-after-data" ();
             if not !stopped then
-              List.iter (fun qu -> if in_flight qu && qu.sock = s then feed qu (IConnClosed (zi !s_now, aRES_ECONNREFUSED))) (queries_in_order ())
+              List.iter (fun qu -> if in_flight qu && qu.sock = s then (excuse qu; feed qu (IConnClosed (zi !s_now, aRES_ECONNREFUSED)))) (queries_in_order ())
           end;
           (* ... and on every way out the requeue array is flushed *)
           List.iter flush (List.rev !touched)
@@ -242,11 +250,14 @@ let case_chan k line lines =
       let due = List.stable_sort (fun a b -> compare a.deadline b.deadline) due in
       if due <> [] then Hashtbl.replace feats "timeouts" ();
       List.iter (fun qu -> if in_flight qu && qu.deadline <= !now then feed qu (ITimeout (zi !s_now))) due;
-      List.iter (fun (qu, was_in_flight, sock0, deadline0, has_out) ->
-        if was_in_flight && has_out && deadline0 > !now
-           && not (Hashtbl.mem excused_q qu.token) && not (Hashtbl.mem excused_s sock0) then
-          fail k "attempt-cut-short" "query t%d: attempt ended %d us before its deadline (base timeout %d ms) without a reply or a socket error on its connection s%d"
-            qu.token (deadline0 - !now) maxt sock0) snapshot;
+      List.iter (fun (qu, was_in_flight, sock0, deadline0, nout) ->
+        (* every message for the query on its connection, and a socket error there, accounts for at
+           most one new transmission / completion; so does its own deadline having passed *)
+        let allowed = (match Hashtbl.find_opt excused_q qu.token with Some n -> n | None -> 0)
+                      + (if deadline0 <= !now then 1 else 0) in
+        if was_in_flight && nout > allowed && not !unjudged then
+          fail k "attempt-cut-short" "query t%d: attempt ended %d us before its deadline (base timeout %d ms) without a reply or a socket error on its connection s%d (%d new transmissions/completions, %d accounted for)"
+            qu.token (deadline0 - !now) base_lb sock0 nout allowed) snapshot;
       mark_closed block;
       end_block "proc" in
     (* ---- walk the log ---- *)
@@ -401,9 +412,9 @@ let case_chan k line lines =
     let ops = List.rev (List.map String.trim (split_on ';' (String.sub line (bar + 1) (String.length line - bar - 1)))) in
     let ops = (match ops with "qlen" :: r -> r | r -> r) in
     let rec tail_rounds n = function
-      | ("proc" | "proct") :: a :: r when starts_with "adv " a && (try int_of_string (String.sub a 4 (String.length a - 4)) >= maxt with _ -> false) -> tail_rounds (n + 1) r
+      | ("proc" | "proct") :: a :: r when starts_with "adv " a && (try int_of_string (String.sub a 4 (String.length a - 4)) >= base_lb with _ -> false) -> tail_rounds (n + 1) r
       | _ -> n in
-    let budget_exhausting_tail = tail_rounds 0 ops >= !smax * tries + 2 in
+    let budget_exhausting_tail = not extreme && tail_rounds 0 ops >= !smax * tries + 2 in
     if budget_exhausting_tail then Hashtbl.replace feats "fulltail" ();
     if budget_exhausting_tail then
     (match List.rev (List.filter_map (fun l -> match words l with ["QLEN"; n] -> Some n | _ -> None) lines) with
@@ -415,8 +426,15 @@ let case_chan k line lines =
       ignore pend;
       fail k "query-never-terminates" "%d of %d queries still outstanding after the final rounds" !unfinished nq
     end;
+    if extreme then Hashtbl.replace feats "extreme" ();
     let fl = List.sort compare (Hashtbl.fold (fun key () acc -> key :: acc) feats []) in
     let fl = List.filter (fun f -> not (starts_with "rsp-" f)) fl @ (if List.exists (starts_with "rsp-") fl then ["replies"] else []) in
+    if !unjudged then begin
+      (* extreme mode and the clock reached the base timeout: the real deadlines are not known *)
+      diffs := List.filter (fun (k', _) -> k' <> k) !diffs;
+      fails := List.filter (fun (k', _, _) -> k' <> k) !fails;
+      "trivial-extreme-clock-advanced"
+    end else
     if nq = 0 then "trivial-norequest"
     else Printf.sprintf "chan-q%s-s%d-%s" (if nq = 1 then "1" else if nq <= 4 then "few" else "many") !smax
         (if fl = [] then "idle" else String.concat "+" fl)
